@@ -136,16 +136,13 @@ theorem rangeStartEnd_eq (E : Env) (args : List Val) (len : Nat) (hargs : ∀ a 
     · simp [h2, hrel]
     · simp [h2, range_index E _ len (argAt_wf args hargs 1) hlen]
 
-/-- slice: model = spec when no element of the copied range is a hole -/
+/-- slice = §15.4.4.10 for every receiver and every argument list -/
 theorem slice_refines (O : Ops σ) (E : Env) (args : List Val) (s : σ)
-    (hargs : ∀ a ∈ args, WFv a) (hlen : O.len s < 2^62)
-    (hfull : ∀ j, Spec.relIndex (Spec.toInteger E (argAt args 0)) (O.len s) ≤ j →
-        j < Spec.relIndex (if argAt args 1 = .undef then .fin (O.len s) else Spec.toInteger E (argAt args 1)) (O.len s) →
-        O.has s j = true) :
+    (hargs : ∀ a ∈ args, WFv a) (hlen : O.len s < 2^62) :
     slice O E args s = Spec.slice O E args s := by
   simp only [slice, Spec.slice, rangeStartEnd_eq E args (O.len s) hargs hlen]
-  generalize hk : Spec.relIndex (Spec.toInteger E (argAt args 0)) (O.len s) = k at hfull
-  generalize hf : Spec.relIndex (if argAt args 1 = .undef then .fin (O.len s) else Spec.toInteger E (argAt args 1)) (O.len s) = final at hfull
+  generalize Spec.relIndex (Spec.toInteger E (argAt args 0)) (O.len s) = k
+  generalize Spec.relIndex (if argAt args 1 = .undef then .fin (O.len s) else Spec.toInteger E (argAt args 1)) (O.len s) = final
   by_cases hge : (k : Int) ≥ (final : Int)
   · have : final - k = 0 := by omega
     simp [hge, this]
@@ -153,12 +150,8 @@ theorem slice_refines (O : Ops σ) (E : Env) (args : List Val) (s : σ)
     simp only [hge, if_false, h1, Int.toNat_natCast]
     congr 2
     apply List.map_congr_left
-    intro n hn
-    have hn' : n < final - k := by simpa using hn
-    have hh : O.has s (k + n) = true := hfull (k + n) (by omega) (by omega)
-    simp [Nat.add_comm n k, hh]
-
-
+    intro n _
+    simp [Nat.add_comm n k]
 
 theorem alignInt_zero_iff (s : Bool) (m : Nat) (e emin : Int) : alignInt s m e emin = 0 ↔ m = 0 := by
   unfold alignInt
@@ -322,40 +315,11 @@ theorem strictEquals_eq (E : Env) (a b : Val) : strictEquals E a b = Spec.strict
          · subst h; simp
          · simp [h])
 
-theorem flatMap_congr' {α β : Type} (l : List α) (f g : α → List β) (h : ∀ a ∈ l, f a = g a) :
-    l.flatMap f = l.flatMap g := by
-  induction l with
-  | nil => rfl
-  | cons x xs ih =>
-    simp only [List.flatMap_cons]
-    rw [h x (List.mem_cons_self ..), ih (fun a ha => h a (List.mem_cons_of_mem _ ha))]
-
-/-- concat: model = spec when neither the receiver (if it is an array) nor an array argument has a hole -/
-theorem concat_refines (O : Ops σ) (items : List CArg) (s : σ)
-    (hthis : ∀ k, k < O.len s → O.has s k = true)
-    (hitems : ∀ es, CArg.arr es ∈ items → ∀ e ∈ es, e ≠ none) :
-    concat O items s = Spec.concat O items s := by
-  have h1 : (List.range (O.len s)).map (fun index => if O.has s index then some (O.get s index) else some Val.undef)
-      = (List.range (O.len s)).map (fun k => if O.has s k then some (O.get s k) else none) := by
-    apply List.map_congr_left
-    intro k hk
-    simp [hthis k (by simpa using hk)]
-  have h2 : ∀ it ∈ items, concatItem it = Spec.concatItem it := by
-    intro it hit
-    cases it with
-    | v x => rfl
-    | arr es =>
-      simp only [concatItem, Spec.concatItem]
-      have := hitems es hit
-      conv => rhs; rw [← List.map_id es]
-      apply List.map_congr_left
-      intro e he
-      cases e with
-      | none => exact absurd rfl (this none he)
-      | some x => rfl
-  have h3 := flatMap_congr' items _ _ h2
-  simp only [concat, Spec.concat, h1, h3]
-
+/-- concat = §15.4.4.4 -/
+theorem concat_refines (O : Ops σ) (items : List CArg) : concat O items = Spec.concat O items := by
+  funext s
+  have h : concatItem = Spec.concatItem := by funext it; cases it <;> rfl
+  simp only [concat, Spec.concat, h]
 
 /-- what objectDelete does to the store: on success the key is absent and every other key is untouched;
     on failure nothing changes -/
@@ -433,10 +397,9 @@ theorem shrinkLoop_refines (E : Env) (newLength : Nat) (d : Desc) (nw throw : Bo
 
 
 
-/-- reduce: model = spec unless the receiver is non-empty, has no present element and no initialValue is given -/
-theorem reduce_refines (O : Ops σ) (c : Bool) (args : List Val) (s : σ)
-    (h : args.length > 0 ∨ O.len s = 0 ∨ ∃ k, searchUp (O.has s) 0 (O.len s) = some k) :
-    reduce O c args s = Spec.reduce O c args s := by
+/-- reduce = §15.4.4.21 -/
+theorem reduce_refines (O : Ops σ) (c : Bool) (args : List Val) : reduce O c args = Spec.reduce O c args := by
+  funext s
   unfold reduce Spec.reduce
   cases c with
   | false => rfl
@@ -448,125 +411,33 @@ theorem reduce_refines (O : Ops σ) (c : Bool) (args : List Val) (s : σ)
     · have ha' : args.length = 0 := by omega
       by_cases hl : O.len s = 0
       · simp [ha, ha', hl]
-      · rcases h with h | h | ⟨k, hk⟩
-        · exact absurd h ha
-        · exact absurd h hl
-        · have hl' : O.len s > 0 := by omega
-          simp [ha, ha', hl, hl', hk]
+      · have hl' : O.len s > 0 := by omega
+        cases hk : searchUp (O.has s) 0 (O.len s) with
+        | none => simp [ha, ha', hl, hl']
+        | some k => simp [ha, ha', hl, hl']
 
-/-- reduceRight: the model is the specification run with a callback that receives the index as the
-    property-key string (`reduceRight_index_string`), unless no element is present (`reduce_no_element`) -/
-def keyArg : List Val → List Val
-  | [a, v, .int k, o] => [a, v, .str (dec k.toNat), o]
-  | l => l
-
-theorem reduceRight_characterised (O : Ops σ) (c : Bool) (args : List Val) (s : σ)
-    (h : args.length > 0 ∨ O.len s = 0 ∨ ∃ k, searchDown (O.has s) (O.len s) = some k) :
-    reduceRight O c args s = Spec.reduceRight { O with call := fun as => O.call (keyArg as) } c args s := by
+/-- reduceRight = §15.4.4.22 -/
+theorem reduceRight_refines (O : Ops σ) (c : Bool) (args : List Val) : reduceRight O c args = Spec.reduceRight O c args := by
+  funext s
   unfold reduceRight Spec.reduceRight
   cases c with
   | false => rfl
   | true =>
-    simp only [Bool.not_true, Bool.false_eq_true, if_false, keyArg, Int.toNat_natCast]
+    simp only [Bool.not_true, Bool.false_eq_true, if_false]
     by_cases ha : args.length > 0
     · have ha' : ¬ args.length = 0 := by omega
       simp [ha, ha']
     · have ha' : args.length = 0 := by omega
       by_cases hl : O.len s = 0
       · simp [ha, ha', hl]
-      · rcases h with h | h | ⟨k, hk⟩
-        · exact absurd h ha
-        · exact absurd h hl
-        · have hl' : O.len s > 0 := by omega
-          simp [ha, ha', hl, hl', hk]
+      · have hl' : O.len s > 0 := by omega
+        cases hk : searchDown (O.has s) (O.len s) with
+        | none => simp [ha, ha', hl, hl']
+        | some k => simp [ha, ha', hl, hl']
 
-
-
-/-- what otto does to a result array: every hole becomes an own property `undefined` -/
-def fillHoles (es : List (Option Val)) : List (Option Val) := es.map fun e => some (e.getD .undef)
-
-def fillRet : Ret → Ret
-  | .arr es => .arr (fillHoles es)
-  | r => r
-
-def Res.mapVal {α β : Type} (f : α → β) : Res σ α → Res σ β
-  | .ok a s => .ok (f a) s
-  | .err e s => .err e s
-
-theorem fillHoles_snoc (a : List (Option Val)) (e : Option Val) :
-    fillHoles (a ++ [e]) = fillHoles a ++ [some (e.getD .undef)] := by
-  simp [fillHoles]
-
-def modelMapBody (O : Ops σ) : Nat → List (Option Val) → M σ (List (Option Val)) :=
-  fun index values => fun s' =>
-    if O.has s' index then
-      (do let r ← O.call [O.get s' index, .int index, .recv]; pure (values ++ [some r])) s'
-    else .ok (values ++ [some Val.undef]) s'
-
-def specMapBody (O : Ops σ) : Nat → List (Option Val) → M σ (List (Option Val)) :=
-  fun k a => fun s' =>
-    if O.has s' k then
-      (do let mappedValue ← O.call [O.get s' k, .int k, .recv]; pure (a ++ [some mappedValue])) s'
-    else .ok (a ++ [none]) s'
-
-theorem map_loop (O : Ops σ) (n lo : Nat) (a : List (Option Val)) (s : σ) :
-    foldUp (modelMapBody O) lo n (fillHoles a) s = Res.mapVal fillHoles (foldUp (specMapBody O) lo n a s) := by
-  induction n generalizing lo a s with
-  | zero => rfl
-  | succ n ih =>
-    simp only [foldUp, bind, M.bind]
-    by_cases hh : O.has s lo = true
-    · simp only [modelMapBody, specMapBody, hh, if_true, bind, M.bind]
-      cases O.call [O.get s lo, .int lo, .recv] s with
-      | err e s' => rfl
-      | ok r s' =>
-        simp only [pure, M.pure]
-        have := ih (lo + 1) (a ++ [some r]) s'
-        rw [fillHoles_snoc] at this
-        exact this
-    · simp only [modelMapBody, specMapBody, hh, if_false, Bool.false_eq_true]
-      have := ih (lo + 1) (a ++ [none]) s
-      rw [fillHoles_snoc] at this
-      exact this
-
-/-- map: otto's result is exactly the specified result with its holes filled by `undefined`
-    (`hole_to_undefined`); same callback invocations, same final state, same errors -/
-theorem map_characterised (O : Ops σ) (c : Bool) (s : σ) :
-    map O c s = Res.mapVal fillRet (Spec.map O c s) := by
-  cases c with
-  | false => rfl
-  | true =>
-    show (foldUp (modelMapBody O) 0 (O.len s) [] >>= fun values => pure (Ret.arr values)) s
-      = Res.mapVal fillRet ((foldUp (specMapBody O) 0 (O.len s) [] >>= fun a => pure (Ret.arr a)) s)
-    have := map_loop O (O.len s) 0 [] s
-    simp only [fillHoles, List.map_nil] at this
-    simp only [bind, M.bind, this]
-    cases foldUp (specMapBody O) 0 (O.len s) [] s with
-    | ok a s' => simp [Res.mapVal, pure, M.pure, fillRet, fillHoles]
-    | err e s' => rfl
-
-/-- hence model = spec whenever the specified result has no hole -/
-theorem map_refines (O : Ops σ) (c : Bool) (s : σ)
-    (h : ∀ es s', Spec.map O c s = .ok (.arr es) s' → ∀ e ∈ es, e ≠ none) :
-    map O c s = Spec.map O c s := by
-  rw [map_characterised]
-  cases hs : Spec.map O c s with
-  | err e s' => rfl
-  | ok r s' =>
-    cases r with
-    | val v => rfl
-    | arr es =>
-      have := h es s' hs
-      simp only [Res.mapVal, fillRet, fillHoles]
-      congr 2
-      conv => rhs; rw [← List.map_id es]
-      apply List.map_congr_left
-      intro e he
-      cases e with
-      | none => exact absurd rfl (this none he)
-      | some x => rfl
-
-
+/-- map = §15.4.4.19 -/
+theorem map_refines (O : Ops σ) (c : Bool) : map O c = Spec.map O c := by
+  funext s; simp only [map, Spec.map]
 
 /-! ## arrayDefineOwnProperty = §15.4.5.1 -/
 
@@ -723,22 +594,18 @@ theorem shrinkTail_refines (E : Env) (N : Nat) (D : Desc) (t : Bool) (cnt : Nat)
         rw [odp_length_wfalse E o2 N hl2]
         rfl
 
-/-- the "length" branch: arrayDefineOwnProperty = §15.4.5.1 step 3, outside the region
-    `length_same_value_not_writable` -/
-theorem setLength_refines (E : Env) (d : Desc) (t : Bool) (N : Nat) (o : Obj) (hwf : WFArr o) (hN : N < 2^32)
-    (hreg : ¬ (N = arrLength o ∧ lengthWritable o = false)) :
+/-- the "length" branch: arrayDefineOwnProperty = §15.4.5.1 step 3 -/
+theorem setLength_refines (E : Env) (d : Desc) (t : Bool) (N : Nat) (o : Obj) (hwf : WFArr o) (hN : N < 2^32) :
     arraySetLength E d t N o = Spec.arraySetLen E d t N o := by
   obtain ⟨ha, n, w, hl, hn, hb⟩ := hwf
   have hlp : (lookup Key.length o.props).getD ⟨.int 0, false, false, false⟩ = ⟨.int (n : Nat), w, false, false⟩ := by
     simp only [LenProp] at hl; simp [hl]
-  rw [arrLength_of o n w hl, lengthWritable_of o n w hl] at hreg
   simp only [arraySetLength, Spec.arraySetLen, oldLen_eq, arrLength_of o n w hl, lengthWritable_of o n w hl, hlp, reject]
-  by_cases hgt : N > n
-  · have : N ≥ n := by omega
-    simp only [hgt, this, if_true]
+  by_cases hge : N ≥ n
+  · simp only [hge, if_true]
     rw [odp_eq E .length _ t (Or.inl rfl)]
-  · simp only [hgt, if_false]
-    -- the common second half: the chain define; tail on a writable length with N ≤ n
+  · simp only [hge, if_false]
+    -- the chain define; tail on a writable length with N < n
     have chain : ∀ (D : Desc) (nw : Bool), D.v = some (.int N) → D.w ≠ some false → w = true →
         ((do let ok ← objectDefineOwnProperty E .length D t
              if !ok then pure false else arrayShrinkTail E N D nw t (n - N)) : M Obj Bool) o
@@ -767,88 +634,26 @@ theorem setLength_refines (E : Env) (d : Desc) (t : Bool) (N : Nat) (o : Obj) (h
         · omega
       · rw [odp_length_rej E o n true D t hl (by rw [hDv]; rfl) hc]
         cases t <;> rfl
-    by_cases heq : N = n
-    · subst heq
-      have hw : w = true := by
-        cases w with
-        | true => rfl
-        | false => exact absurd ⟨rfl, rfl⟩ hreg
-      subst hw
-      simp only [Nat.le_refl, ge_iff_le, if_true, Bool.not_true, Bool.false_eq_true, if_false]
-      -- the specification does one define; otto does define; (empty loop); define again
-      have hsame : ({ o with props := write .length ⟨.int N, true, false, false⟩ o.props } : Obj) = o := by
-        rw [write_same _ _ _ hl]
-      -- newWritable: one descriptor D throughout
-      have eqT : ∀ D : Desc, D.v = some (.int N) → D.w ≠ some false →
-          ((do let ok ← objectDefineOwnProperty E .length D t
-               if !ok then pure false else arrayShrinkTail E N D true t (N - N)) : M Obj Bool) o
-          = Spec.defineOwnDefault E .length D t o := by
-        intro D hDv hDw
-        rw [← odp_eq E .length D t (Or.inl (by rw [hDv]; rfl))]
-        simp only [bind, M.bind]
-        by_cases hc : Cok D
-        · have hw' : D.w.getD true = true := by
-            cases hD : D.w with
-            | none => rfl
-            | some b => cases b with
-              | true => rfl
-              | false => exact absurd hD hDw
-          rw [odp_length_ok E o N N D t hl hDv hc, hw', hsame]
-          simp only [Bool.not_true, Bool.false_eq_true, if_false, Nat.sub_self, arrayShrinkTail, shrinkLoop, bind, M.bind,
-            pure, M.pure]
-          rw [odp_length_ok E o N N D t hl hDv hc, hw', hsame]
-        · rw [odp_length_rej E o N true D t hl (by rw [hDv]; rfl) hc]
-          cases t <;> rfl
-      -- writable:false requested: define with writable:true, then twice with writable:false
-      have eqF : ∀ e c : Option Bool,
-          ((do let ok ← objectDefineOwnProperty E .length ⟨some (.int N), some true, e, c⟩ t
-               if !ok then pure false else arrayShrinkTail E N ⟨some (.int N), some true, e, c⟩ false t (N - N)) : M Obj Bool) o
-          = Spec.defineOwnDefault E .length ⟨some (.int N), some false, e, c⟩ t o := by
-        intro e c
-        rw [← odp_eq E .length ⟨some (.int N), some false, e, c⟩ t (Or.inl rfl)]
-        simp only [bind, M.bind]
-        by_cases hc : Cok ⟨some (.int N), some true, e, c⟩
-        · have hc' : Cok ⟨some (.int N), some false, e, c⟩ := hc
-          rw [odp_length_ok E o N N _ t hl rfl hc]
-          simp only [Option.getD_some, hsame, Bool.not_true, Bool.false_eq_true, if_false, Nat.sub_self, arrayShrinkTail,
-            shrinkLoop, bind, M.bind, pure, M.pure, Bool.not_false, if_true]
-          have h1 := odp_length_ok E o N N ⟨some (.int N), some false, e, c⟩ false hl rfl hc'
-          rw [h1]
-          simp only []
-          rw [odp_idem E .length ⟨some (.int N), some false, e, c⟩ false t o _ (Or.inl rfl) h1]
-          rw [odp_length_ok E o N N ⟨some (.int N), some false, e, c⟩ t hl rfl hc']
-        · have hc' : ¬ Cok ⟨some (.int N), some false, e, c⟩ := hc
-          rw [odp_length_rej E o N true _ t hl rfl hc, odp_length_rej E o N true _ t hl rfl hc']
-          cases t <;> rfl
+    cases w with
+    | false => simp
+    | true =>
+      simp only [Bool.not_true, Bool.false_eq_true, if_false]
       rcases hdw : d.w with _ | (_ | _)
-      · simpa using eqT ⟨some (.int N), none, d.e, d.c⟩ rfl (by simp)
-      · simpa using eqF d.e d.c
-      · simpa using eqT ⟨some (.int N), some true, d.e, d.c⟩ rfl (by simp)
-    · have hlt : ¬ N ≥ n := by omega
-      simp only [hlt, if_false]
-      cases w with
-      | false => simp
-      | true =>
-        simp only [Bool.not_true, Bool.false_eq_true, if_false]
-        rcases hdw : d.w with _ | (_ | _)
-        · simpa using chain ⟨some (.int N), none, d.e, d.c⟩ true rfl (by simp) rfl
-        · simpa using chain ⟨some (.int N), some true, d.e, d.c⟩ false rfl (by simp) rfl
-        · simpa using chain ⟨some (.int N), some true, d.e, d.c⟩ true rfl (by simp) rfl
+      · simpa using chain ⟨some (.int N), none, d.e, d.c⟩ true rfl (by simp) rfl
+      · simpa using chain ⟨some (.int N), some true, d.e, d.c⟩ false rfl (by simp) rfl
+      · simpa using chain ⟨some (.int N), some true, d.e, d.c⟩ true rfl (by simp) rfl
 
-
-/-- keys on which otto's stringToArrayIndex and the §15.4 array-index test agree: "length", every canonical
-    numeral, and every other string that neither side takes for an index (the complement is the region
-    `index_noncanonical`) -/
+/-- the representation invariant of keys: `name s` is never used for "length" … nor for a canonical index
+    numeral (those are `idx n`); the driver's `keyOfBytes` guarantees it -/
 def KeyOK : Key → Prop
   | .length => True
   | .idx _ => True
-  | .name s => stringToArrayIndexRaw s < 0 ∧ Spec.arrayIndex? s = none
+  | .name s => Spec.arrayIndex? s = none
 
-/-- **arrayDefineOwnProperty = §15.4.5.1** on a well-formed array, for every key in `KeyOK`, every data descriptor
-    with optional fields, either throw flag — outside `length_same_value_not_writable`. -/
+/-- **arrayDefineOwnProperty = §15.4.5.1** on a well-formed array, for every key, every data descriptor with
+    optional fields, either throw flag. -/
 theorem arrayDefineOwnProperty_refines (E : Env) (k : Key) (d : Desc) (t : Bool) (o : Obj) (hwf : WFArr o)
-    (hk : KeyOK k) (hng : d.v.isSome = true ∨ d.w.isSome = true)
-    (hreg : ¬ (k = .length ∧ lengthWritable o = false ∧ ∃ nv, d.v = some nv ∧ arrayUint32 E nv = some (arrLength o))) :
+    (hk : KeyOK k) (hng : d.v.isSome = true ∨ d.w.isSome = true) :
     arrayDefineOwnProperty E k d t o = Spec.arrayDefineOwn E k d t o := by
   unfold arrayDefineOwnProperty Spec.arrayDefineOwn
   by_cases hkl : k = .length
@@ -865,9 +670,7 @@ theorem arrayDefineOwnProperty_refines (E : Env) (k : Key) (d : Desc) (t : Bool)
       | none => rfl
       | some N =>
         simp only
-        apply setLength_refines E d t N o hwf (arrayUint32_lt E nv N hu)
-        intro ⟨h1, h2⟩
-        exact hreg ⟨rfl, h2, nv, hv, by rw [hu, h1]⟩
+        exact setLength_refines E d t N o hwf (arrayUint32_lt E nv N hu)
   · simp only [hkl, if_false]
     cases k with
     | length => exact absurd rfl hkl
@@ -883,20 +686,18 @@ theorem arrayDefineOwnProperty_refines (E : Env) (k : Key) (d : Desc) (t : Bool)
         simp only [this, if_false]
         rw [odp_eq E _ d t hng]
     | name s =>
-      obtain ⟨h1, h2⟩ := hk
+      have h2 : Spec.arrayIndex? s = none := hk
       have : ¬ (stringToArrayIndex (.name s) ≥ 0) := by
-        simp only [stringToArrayIndex, Key.toBytes]; omega
+        simp only [stringToArrayIndex, Key.toBytes, array_index_eq, h2]; omega
       simp only [this, if_false, Key.toBytes, h2]
       rw [odp_eq E _ d t hng]
 
 /-- hence §15.4.5.1 itself keeps the length invariant (transfer through the refinement) -/
 theorem wf_specArrayDefine (E : Env) (k : Key) (d : Desc) (t : Bool) (o : Obj) (hwf : WFArr o)
-    (hk : KeyOK k) (hng : d.v.isSome = true ∨ d.w.isSome = true)
-    (hreg : ¬ (k = .length ∧ lengthWritable o = false ∧ ∃ nv, d.v = some nv ∧ arrayUint32 E nv = some (arrLength o))) :
+    (hk : KeyOK k) (hng : d.v.isSome = true ∨ d.w.isSome = true) :
     WFArr (stateOf (Spec.arrayDefineOwn E k d t o)) := by
-  rw [← arrayDefineOwnProperty_refines E k d t o hwf hk hng hreg]
+  rw [← arrayDefineOwnProperty_refines E k d t o hwf hk hng]
   exact wf_arrayDefine E o k d t hwf
-
 
 /-! ## objectPut = §8.12.5, histories -/
 
@@ -983,21 +784,9 @@ theorem objectPut_refines (E : Env) (k : Key) (v : Val) (t : Bool) (o : Obj) (hw
     | false => simp
     | true =>
       simp only [Bool.not_true, Bool.false_eq_true, if_false]
-      have hreg : ¬ (k = .length ∧ lengthWritable o = false ∧
-          ∃ nv, (⟨some v, some p.w, some p.e, some p.c⟩ : Desc).v = some nv ∧ arrayUint32 E nv = some (arrLength o)) := by
-        intro ⟨h1, h2, _⟩
-        subst h1
-        simp [lengthWritable, hl, hw] at h2
-      rw [arrayDefineOwnProperty_refines E k _ t o hwf hk (Or.inl rfl) hreg]
+      rw [arrayDefineOwnProperty_refines E k _ t o hwf hk (Or.inl rfl)]
       rw [specDefine_full_vo E k v t o p hwf hl hw]
   | none =>
-    have hkl : k ≠ .length := by
-      intro e; subst e
-      obtain ⟨_, n, w, h, _, _⟩ := hwf
-      simp only [LenProp] at h; rw [h] at hl; cases hl
-    have hreg : ¬ (k = .length ∧ lengthWritable o = false ∧
-        ∃ nv, (⟨some v, some true, some true, some true⟩ : Desc).v = some nv ∧ arrayUint32 E nv = some (arrLength o)) :=
-      fun h => hkl h.1
     cases hp : protoLookup k o with
     | none =>
       simp only
@@ -1005,14 +794,14 @@ theorem objectPut_refines (E : Env) (k : Key) (v : Val) (t : Bool) (o : Obj) (hw
       | false => simp
       | true =>
         simp only [Bool.not_true, Bool.false_eq_true, if_false]
-        rw [arrayDefineOwnProperty_refines E k _ t o hwf hk (Or.inl rfl) hreg]
+        rw [arrayDefineOwnProperty_refines E k _ t o hwf hk (Or.inl rfl)]
     | some pv =>
       simp only
       cases he : o.ext with
       | false => simp
       | true =>
         simp only [Bool.not_true, Bool.false_eq_true, if_false]
-        rw [arrayDefineOwnProperty_refines E k _ t o hwf hk (Or.inl rfl) hreg]
+        rw [arrayDefineOwnProperty_refines E k _ t o hwf hk (Or.inl rfl)]
 
 
 /-! ### histories: model = specification -/
@@ -1027,39 +816,38 @@ def specRunHist (E : Env) : List HOp → Obj → Obj
   | [], o => o
   | op :: ops, o => specRunHist E ops (op.specRun E o)
 
-/-- a step that stays outside the deviation regions of the object layer -/
-def StepOK (E : Env) : HOp → Obj → Prop
-  | .define k d _, o => KeyOK k ∧ (d.v.isSome = true ∨ d.w.isSome = true) ∧
-      ¬ (k = .length ∧ lengthWritable o = false ∧ ∃ nv, d.v = some nv ∧ arrayUint32 E nv = some (arrLength o))
-  | .put k _ _, _ => KeyOK k
-  | .delete _ _, _ => True
+/-- the side conditions of a step: keys respect the representation invariant and descriptors are data
+    descriptors (generic descriptors on existing properties are C07's subject) -/
+def StepOK : HOp → Prop
+  | .define k d _ => KeyOK k ∧ (d.v.isSome = true ∨ d.w.isSome = true)
+  | .put k _ _ => KeyOK k
+  | .delete _ _ => True
 
-def HistOK (E : Env) : List HOp → Obj → Prop
-  | [], _ => True
-  | op :: ops, o => StepOK E op o ∧ HistOK E ops (op.run E o)
+def HistOK (ops : List HOp) : Prop := ∀ op ∈ ops, StepOK op
 
-theorem step_refines (E : Env) (op : HOp) (o : Obj) (hwf : WFArr o) (hok : StepOK E op o) :
+theorem step_refines (E : Env) (op : HOp) (o : Obj) (hwf : WFArr o) (hok : StepOK op) :
     op.run E o = op.specRun E o := by
   cases op with
   | define k d t =>
-    obtain ⟨h1, h2, h3⟩ := hok
+    obtain ⟨h1, h2⟩ := hok
     simp only [HOp.run, HOp.specRun, defineOwnProperty, Spec.defineOwn, hwf.arr, if_true]
-    rw [arrayDefineOwnProperty_refines E k d t o hwf h1 h2 h3]
+    rw [arrayDefineOwnProperty_refines E k d t o hwf h1 h2]
   | put k v t =>
     simp only [HOp.run, HOp.specRun]
     rw [objectPut_refines E k v t o hwf hok]
   | delete k t =>
     simp only [HOp.run, HOp.specRun, objectDelete_refines]
 
-/-- **history_refines**: every finite history of [[DefineOwnProperty]] / [[Put]] / [[Delete]] on an array that
-    stays outside `index_noncanonical`, `length_same_value_not_writable` and generic descriptors leaves exactly the
-    object that ES5 prescribes — and that object satisfies the length invariant. -/
-theorem history_refines (E : Env) (ops : List HOp) (o : Obj) (hwf : WFArr o) (hok : HistOK E ops o) :
+/-- **history_refines**: every finite history of [[DefineOwnProperty]] / [[Put]] / [[Delete]] on an array (data
+    descriptors, any key) leaves exactly the object that ES5 prescribes — and that object satisfies the length
+    invariant. -/
+theorem history_refines (E : Env) (ops : List HOp) (o : Obj) (hwf : WFArr o) (hok : HistOK ops) :
     runHist E ops o = specRunHist E ops o ∧ WFArr (specRunHist E ops o) := by
   induction ops generalizing o with
   | nil => exact ⟨rfl, hwf⟩
   | cons op ops ih =>
-    obtain ⟨h1, h2⟩ := hok
+    have h1 : StepOK op := hok op (List.mem_cons_self ..)
+    have h2 : HistOK ops := fun x hx => hok x (List.mem_cons_of_mem _ hx)
     have hwf' : WFArr (op.run E o) := by
       cases op with
       | define k d t => exact wf_defineOwn E o k d t hwf
@@ -1069,7 +857,6 @@ theorem history_refines (E : Env) (ops : List HOp) (o : Obj) (hwf : WFArr o) (ho
     simp only [runHist, specRunHist]
     rw [← hs]
     exact ih (op.run E o) hwf' h2
-
 
 /-! ## join -/
 
@@ -1112,41 +899,40 @@ theorem join_refines (O : Ops σ) (E : Env) (args : List Val) : join O E args = 
 
 /-! ## splice -/
 
-/-- splice with at least two arguments (outside `splice_no_arguments` / `splice_one_argument`) and no hole in the
-    removed range (outside `hole_to_undefined`) is §15.4.4.12, for every receiver and argument list -/
+/-- splice = §15.4.4.12 for every receiver and every argument list except the one-argument form
+    (`splice_one_argument`: ES5.1 removes nothing there, otto and ES2015 remove up to the end) -/
 theorem splice_refines (O : Ops σ) (E : Env) (args : List Val) (s : σ)
-    (hargs : ∀ a ∈ args, WFv a) (hlen : O.len s < 2^62) (hargc : args.length > 1)
-    (hfull : ∀ j, Spec.relIndex (Spec.toInteger E (argAt args 0)) (O.len s) ≤ j →
-        j < Spec.relIndex (Spec.toInteger E (argAt args 0)) (O.len s)
-              + clampPos (Spec.toInteger E (argAt args 1)) (O.len s - Spec.relIndex (Spec.toInteger E (argAt args 0)) (O.len s)) →
-        O.has s j = true) :
+    (hargs : ∀ a ∈ args, WFv a) (hlen : O.len s < 2^62) (hargc : args.length ≠ 1) :
     splice O E args s = Spec.splice O E args s := by
   have hstart := range_index E (argAt args 0) (O.len s) (argAt_wf args hargs 0) hlen
-  generalize hk : Spec.relIndex (Spec.toInteger E (argAt args 0)) (O.len s) = start at hstart hfull
+  generalize hk : Spec.relIndex (Spec.toInteger E (argAt args 0)) (O.len s) = start at hstart
   have hstart_le : start ≤ O.len s := by
     rw [← hk]; simp only [Spec.relIndex]; repeat' (first | omega | split)
-  have hdc := range_index_nz E (argAt args 1) (O.len s - start) (argAt_wf args hargs 1) (by omega)
-  generalize hd : clampPos (Spec.toInteger E (argAt args 1)) (O.len s - start) = dc at hdc hfull
-  have hdc_le : dc ≤ O.len s - start := by
-    rw [← hd]; simp only [clampPos, Spec.clamp0]; repeat' (first | omega | split)
   have hcast : ((O.len s : Nat) : Int) - (start : Int) = ((O.len s - start : Nat) : Int) := by omega
-  have hspecdc : Spec.clamp0 (Spec.toInteger E (argAt args 1)) (O.len s - start) = dc := hd
-  simp only [splice, Spec.splice, hk, hstart, hargc, if_true, hcast, hdc, Int.toNat_natCast, hspecdc]
-  have hret : (List.range dc).map (fun index => if O.has s (start + index) = true then some (O.get s (start + index)) else some Val.undef)
-      = (List.range dc).map (fun k => if O.has s (start + k) = true then some (O.get s (start + k)) else none) := by
-    apply List.map_congr_left
-    intro j hj
-    have : j < dc := by simpa using hj
-    simp [hfull (start + j) (by omega) (by omega)]
-  rw [hret]
+  generalize hd : Spec.clamp0 (Spec.toInteger E (argAt args 1)) (O.len s - start) = dc
+  have hdc_le : dc ≤ O.len s - start := by
+    rw [← hd]; simp only [Spec.clamp0]; repeat' (first | omega | split)
+  -- otto's deleteCount is the specification's actualDeleteCount
+  have hdc : (if args.length > 1 then valueToRangeIndex E (argAt args 1) ((O.len s - start : Nat) : Int) true
+      else if args.length = 0 then 0 else ((O.len s - start : Nat) : Int)) = ((dc : Nat) : Int) := by
+    by_cases h2 : args.length > 1
+    · simp only [h2, if_true]
+      have := range_index_nz E (argAt args 1) (O.len s - start) (argAt_wf args hargs 1) (by omega)
+      rw [this]; simp only [clampPos, hd]
+    · have h0 : args.length = 0 := by omega
+      simp only [h2, h0, if_false, if_true]
+      have hnil : args = [] := List.eq_nil_of_length_eq_zero h0
+      subst hnil
+      rw [← hd]
+      simp only [argAt, List.getElem?_nil, Option.getD_none, Spec.toInteger, Spec.toNumber, Spec.clamp0]
+      repeat' (first | rfl | omega | split)
+  simp only [splice, Spec.splice, hk, hstart, hcast, hdc, Int.toNat_natCast, hd]
   have hlenv : (Val.int ((O.len s : Int) + ((args.drop 2).length : Nat) - (dc : Int)))
       = Val.int (((O.len s - dc + (args.drop 2).length : Nat) : Nat) : Int) := by
     congr 1; omega
   rw [hlenv]
   by_cases h1 : (args.drop 2).length < dc
   · simp only [h1, if_true]
-    have e1 : O.len s - dc - start = O.len s - dc - start := rfl
-    have e2 : O.len s - dc + (args.drop 2).length = O.len s - dc + (args.drop 2).length := rfl
     have e3 : O.len s - (O.len s - dc + (args.drop 2).length) = dc - (args.drop 2).length := by omega
     simp only [e3, putItems_eq]
     rfl
@@ -1154,7 +940,6 @@ theorem splice_refines (O : Ops σ) (E : Env) (args : List Val) (s : σ)
     by_cases h2 : (args.drop 2).length > dc
     · simp only [h2, if_true, putItems_eq]; rfl
     · simp only [h2, if_false, putItems_eq]
-
 
 /-! ## indexOf / lastIndexOf -/
 
@@ -1223,12 +1008,10 @@ theorem indexOf_refines (O : Ops σ) (E : Env) (args : List Val) (s : σ)
 
 /-- the number of positions otto's lastIndexOf examines, as a function of the (negative-adjusted) fromIndex -/
 def lastCount (i' : Int) (len : Nat) : Nat :=
-  if i' > (len : Int) then len else if 0 > i' then 0 else (i' + 1).toNat
+  if i' ≥ (len : Int) then len else if 0 > i' then 0 else (i' + 1).toNat
 
 theorem lastIndexOf_count (n : Spec.IntInf) (len : Nat) (hlen : len < 2^62) :
-    lastCount (if 0 > sat n then sat n + (len : Int) else sat n) len
-      = if (if 0 > sat n then sat n + (len : Int) else sat n) = (len : Int) then len + 1
-        else Spec.lastIndexOfCount n len := by
+    lastCount (if 0 > sat n then sat n + (len : Int) else sat n) len = Spec.lastIndexOfCount n len := by
   cases n with
   | pinf =>
     have h1 : ¬ ((0:Int) > 2^63 - 1) := by omega
@@ -1244,13 +1027,9 @@ theorem lastIndexOf_count (n : Spec.IntInf) (len : Nat) (hlen : len < 2^62) :
       · simp only [h1, h2, if_true, if_false]; repeat' (first | omega | split)
     · simp only [h1, if_false]; repeat' (first | omega | split)
 
-/-- lastIndexOf = §15.4.4.15 unless fromIndex (after the negative adjustment) equals length and the receiver has
-    a property at index length (`lastIndexOf_from_length`) -/
+/-- lastIndexOf = §15.4.4.15 for every receiver and argument list -/
 theorem lastIndexOf_refines (O : Ops σ) (E : Env) (args : List Val) (s : σ)
-    (hargs : ∀ a ∈ args, WFv a) (hlen : O.len s < 2^62)
-    (hreg : args.length > 1 →
-      (if 0 > toI64 E (argAt args 1) then toI64 E (argAt args 1) + (O.len s : Int) else toI64 E (argAt args 1)) = (O.len s : Int) →
-      O.has s (O.len s) = false) :
+    (hargs : ∀ a ∈ args, WFv a) (hlen : O.len s < 2^62) :
     lastIndexOf O E args s = Spec.lastIndexOf O E args s := by
   simp only [lastIndexOf, Spec.lastIndexOf]
   have hn : (if args.length > 1 then toI64 E (argAt args 1) else ((O.len s : Nat) : Int) - 1)
@@ -1258,31 +1037,20 @@ theorem lastIndexOf_refines (O : Ops σ) (E : Env) (args : List Val) (s : σ)
     split
     · exact toI64_sat E _ (argAt_wf args hargs 1)
     · simp only [sat, maxInt64, minInt64]; repeat' (first | omega | split)
-  have hreg' : (if 0 > sat (if args.length > 1 then Spec.toInteger E (argAt args 1) else .fin (((O.len s : Nat) : Int) - 1))
-        then sat (if args.length > 1 then Spec.toInteger E (argAt args 1) else .fin (((O.len s : Nat) : Int) - 1)) + (O.len s : Int)
-        else sat (if args.length > 1 then Spec.toInteger E (argAt args 1) else .fin (((O.len s : Nat) : Int) - 1))) = (O.len s : Int)
-      → O.has s (O.len s) = false := by
-    by_cases ha : args.length > 1
-    · simp only [ha, if_true, ← toI64_sat E _ (argAt_wf args hargs 1)]
-      exact hreg ha
-    · simp only [ha, if_false, sat, maxInt64, minInt64]
-      intro h
-      exfalso
-      repeat' (first | omega | split at h)
   rw [hn]
-  generalize (if args.length > 1 then Spec.toInteger E (argAt args 1) else Spec.IntInf.fin (((O.len s : Nat) : Int) - 1)) = n at hreg'
+  generalize (if args.length > 1 then Spec.toInteger E (argAt args 1) else Spec.IntInf.fin (((O.len s : Nat) : Int) - 1)) = n
   have hc := lastIndexOf_count n (O.len s) hlen
-  generalize hi : (if 0 > sat n then sat n + (O.len s : Int) else sat n) = i' at hc hreg'
+  generalize (if 0 > sat n then sat n + (O.len s : Int) else sat n) = i' at hc
   -- otto's three-way branch is one downward search over `lastCount i' len` positions
   have hmodel : ∀ P : Nat → Bool,
-      (if i' > ((O.len s : Nat) : Int) then
+      (if i' ≥ ((O.len s : Nat) : Int) then
           (Res.ok (indexRet (searchDown P ((((O.len s : Nat) : Int) - 1) + 1).toNat)) s : Res σ Ret)
         else if 0 > i' then .ok (indexRet none) s
         else .ok (indexRet (searchDown P (i' + 1).toNat)) s)
       = .ok (indexRet (searchDown P (lastCount i' (O.len s)))) s := by
     intro P
     simp only [lastCount]
-    by_cases h1 : i' > ((O.len s : Nat) : Int)
+    by_cases h1 : i' ≥ ((O.len s : Nat) : Int)
     · have : ((((O.len s : Nat) : Int) - 1) + 1).toNat = O.len s := by omega
       simp only [h1, if_true, this]
     · by_cases h2 : 0 > i'
@@ -1292,27 +1060,9 @@ theorem lastIndexOf_refines (O : Ops σ) (E : Env) (args : List Val) (s : σ)
   simp only [strictEquals_eq]
   have hz : Spec.lastIndexOfCount n 0 = 0 := by
     cases n <;> simp only [Spec.lastIndexOfCount] <;> repeat' (first | rfl | omega | split)
-  by_cases he : i' = ((O.len s : Nat) : Int)
-  · have hh := hreg' he
-    simp only [he, if_true, searchDown, hh, Bool.false_and, Bool.false_eq_true, if_false]
-    by_cases h0 : O.len s = 0
-    · simp only [h0, if_true, searchDown]; rfl
-    · simp only [h0, if_false]
-      have : Spec.lastIndexOfCount n (O.len s) = O.len s := by
-        rw [← hi] at he
-        cases n with
-        | pinf => simp only [sat, maxInt64] at he; exfalso; repeat' (first | omega | split at he)
-        | ninf => simp only [sat, minInt64] at he; exfalso; repeat' (first | omega | split at he)
-        | fin i =>
-          simp only [sat, maxInt64, minInt64] at he
-          simp only [Spec.lastIndexOfCount]
-          repeat' (first | omega | split at he | split)
-      rw [this]
-  · simp only [he, if_false]
-    by_cases h0 : O.len s = 0
-    · simp only [h0, if_true, hz, searchDown]; rfl
-    · simp only [h0, if_false]
-
+  by_cases h0 : O.len s = 0
+  · simp only [h0, if_true, hz, searchDown]; rfl
+  · simp only [h0, if_false]
 
 /-! ## reverse -/
 
@@ -1324,22 +1074,17 @@ theorem forUp_congr (b1 b2 : Nat → M σ Unit) (lo n : Nat) (h : ∀ i, lo ≤ 
     simp only [forUp]
     rw [h lo (Nat.le_refl _) (by omega), ih (lo + 1) (fun i h1 h2 => h i (by omega) (by omega))]
 
-/-- reverse = §15.4.4.8 for every receiver on which deleting one index and putting another commute (no
-    [[Put]]/[[Delete]] can fail half-way: the complement is `reverse_delete_before_put`) -/
-theorem reverse_refines (O : Ops σ)
-    (hcomm : ∀ (lo hi : Nat) (v : Val), lo ≠ hi → (do O.del hi; O.put lo v : M σ Unit) = (do O.put lo v; O.del hi)) :
-    reverse O = Spec.reverse O := by
+/-- reverse = §15.4.4.8 for every receiver -/
+theorem reverse_refines (O : Ops σ) : reverse O = Spec.reverse O := by
   funext s
   simp only [reverse, Spec.reverse]
   have : forUp (fun lower => reverseStep O lower (O.len s - lower - 1)) 0 (O.len s / 2)
        = forUp (fun lower => Spec.reverseStep O lower (O.len s - lower - 1)) 0 (O.len s / 2) := by
     apply forUp_congr
-    intro i _ hi
-    have hne : i ≠ O.len s - i - 1 := by omega
+    intro i _ _
     funext s'
     simp only [reverseStep, Spec.reverseStep]
     cases h1 : O.has s' i <;> cases h2 : O.has s' (O.len s - i - 1) <;> simp
-    exact congrFun (hcomm i (O.len s - i - 1) (O.get s' (O.len s - i - 1)) hne) s'
   rw [this]
 
 /-- non-vacuity: an array-like whose [[Put]] and [[Delete]] always succeed -/
@@ -1352,15 +1097,6 @@ def tOps : Ops (List (Option Val)) where
   putLen := fun _ s => .ok () s
   call := fun _ s => .ok .undef s
   isArr := fun _ => true
-
-example : reverse tOps = Spec.reverse tOps := by
-  apply reverse_refines
-  intro lo hi v hne
-  funext s
-  simp only [tOps, bind, M.bind]
-  congr 1
-  exact List.set_comm _ _ hne.symm
-
 
 /-! ## sort: the result is a permutation (§15.4.4.11, first bullet of the postcondition) -/
 
@@ -1532,9 +1268,9 @@ theorem sort_permutation (E : Env) (cmp : SortCmp) (s : List (Option Val)) :
     exact ⟨s, rfl, List.Perm.refl _, rfl⟩
 
 
-/-! ## Witnesses: each deviation region is inhabited (kernel-checked by `decide`) -/
+/-! ## Witness of the remaining deviation region (kernel-checked by `decide`) -/
 
-/-- a small array-like used by the witnesses and non-vacuity examples -/
+/-- a small array-like used by the witness and the non-vacuity examples -/
 structure W where
   len : Nat
   elems : List (Option Val)
@@ -1557,63 +1293,27 @@ def E0 : Env := { pn := fun _ => .nan, ts := fun _ => [] }
 def retOf {σ : Type} : Res σ Ret → Option Ret
   | .ok r _ => some r
   | .err _ _ => none
-def isErr {σ α : Type} : Res σ α → Bool
-  | .ok _ _ => false
-  | .err _ _ => true
 
-/-- index_noncanonical: "01" -/
-example : stringToArrayIndexRaw [48, 49] = 1 ∧ Spec.arrayIndex? [48, 49] = none := by decide
-
-/-- hole_to_undefined: [1,,].slice() -/
-example : retOf (slice wOps E0 [] ⟨2, [some (.int 1), none], [], true⟩) = some (.arr [some (.int 1), some .undef])
-    ∧ retOf (Spec.slice wOps E0 [] ⟨2, [some (.int 1), none], [], true⟩) = some (.arr [some (.int 1), none]) := by decide
-
-/-- splice_no_arguments: [1].splice() -/
-example : retOf (splice wOps E0 [] ⟨1, [some (.int 1)], [], true⟩) = some (.arr [some (.int 1)])
-    ∧ retOf (Spec.splice wOps E0 [] ⟨1, [some (.int 1)], [], true⟩) = some (.arr []) := by decide
-
-/-- splice_one_argument: [1].splice(0) -/
+/-- splice_one_argument: [1].splice(0) — by the letter of ES5.1 nothing is removed -/
 example : retOf (splice wOps E0 [.int 0] ⟨1, [some (.int 1)], [], true⟩) = some (.arr [some (.int 1)])
     ∧ retOf (Spec.splice wOps E0 [.int 0] ⟨1, [some (.int 1)], [], true⟩) = some (.arr []) := by decide
 
-/-- lastIndexOf_from_length: length 1, a property at index 1, fromIndex 1 -/
-example : retOf (lastIndexOf wOps E0 [.bool true, .int 1] ⟨1, [some .null, some (.bool true)], [], true⟩) = some (.val (.int 1))
-    ∧ retOf (Spec.lastIndexOf wOps E0 [.bool true, .int 1] ⟨1, [some .null, some (.bool true)], [], true⟩) = some (.val (.int (-1))) := by decide
+/-- the cases that used to deviate now agree: "01" is no index; holes stay holes; splice() removes nothing -/
+example : stringToArrayIndexRaw [48, 49] = -1 ∧ Spec.arrayIndex? [48, 49] = none := by decide
+example : retOf (slice wOps E0 [] ⟨2, [some (.int 1), none], [], true⟩) = some (.arr [some (.int 1), none]) := by decide
+example : retOf (splice wOps E0 [] ⟨1, [some (.int 1)], [], true⟩) = some (.arr []) := by decide
 
-/-- reduce_no_element: [,,].reduce(f) -/
-example : retOf (reduce wOps true [] ⟨2, [none, none], [], true⟩) = some (.val .undef)
-    ∧ isErr (Spec.reduce wOps true [] ⟨2, [none, none], [], true⟩) = true := by decide
-
-/-- reduceRight_index_string: [null].reduceRight(f, 0) logs the index as "0" -/
-example : (stateOf (reduceRight wOps true [.int 0] ⟨1, [some .null], [], true⟩)).log = [[.int 0, .null, .str [48], .recv]]
-    ∧ (stateOf (Spec.reduceRight wOps true [.int 0] ⟨1, [some .null], [], true⟩)).log = [[.int 0, .null, .int 0, .recv]] := by decide
-
-/-- reverse_delete_before_put: [,true].reverse() on a receiver whose [[Put]] throws -/
-example : (stateOf (reverse wOps ⟨2, [none, some (.bool true)], [], false⟩)).elems = [none, none]
-    ∧ (stateOf (Spec.reverse wOps ⟨2, [none, some (.bool true)], [], false⟩)).elems = [none, some (.bool true)] := by decide
-
-/-- length_same_value_not_writable: Object.defineProperty(frozen [x], "length", {value: 1}) -/
-example :
-    let o : Obj := { isArr := true, ext := false, props := [(.length, ⟨.int 1, false, false, false⟩)], proto := [] }
-    isErr (arrayDefineOwnProperty E0 .length { v := some (.int 1) } true o) = true
-      ∧ isErr (Spec.arrayDefineOwn E0 .length { v := some (.int 1) } true o) = false := by decide
-
-
-
-/-- sort_comparator_infinite: comparefn returning ±Infinity — otto sees 0 for every pair, ES5 the sign -/
 def intCmp : Val → Val → Int
   | .int a, .int b => if a < b then -1 else if a > b then 1 else 0
   | _, _ => 0
-
-example : stateOf (sort tOps E0 true (some fun _ _ => 0) [some (.int 3), some (.int 1), some (.int 2)])
-      = [some (.int 3), some (.int 2), some (.int 1)]
-    ∧ stateOf (Spec.sort tOps E0 true (some intCmp) [some (.int 3), some (.int 1), some (.int 2)])
-      = [some (.int 1), some (.int 2), some (.int 3)] := by decide
 
 /-- non-vacuity of sort_permutation, and what the default sort does with undefined and holes -/
 example : stateOf (sort tOps { pn := fun _ => .nan, ts := fun v => match v with | .int i => dec i.toNat | _ => [] } true none
       [some (.int 3), none, some (.int 10), some .undef, some (.int 2)])
     = [some (.int 10), some (.int 2), some (.int 3), some .undef, none] := by decide
+
+example : stateOf (sort tOps E0 true (some intCmp) [some (.int 3), some (.int 1), some (.int 2)])
+    = stateOf (Spec.sort tOps E0 true (some intCmp) [some (.int 3), some (.int 1), some (.int 2)]) := by decide
 
 /-! ## The length invariant: consequences, transfer to §15.4.5.1, non-vacuity -/
 
@@ -1651,10 +1351,11 @@ def emptyArr : Obj := { isArr := true, ext := true, props := [(.length, ⟨.int 
 theorem wf_empty : WFArr emptyArr :=
   ⟨rfl, 0, true, rfl, by decide, fun n _ h => by simp [emptyArr, lookup] at h⟩
 
-/-- non-vacuity: the invariant holds after a history that grows the array through a non-canonical numeral,
+/-- non-vacuity: the invariant holds after a history that uses a non-canonical numeral as an ordinary name,
     pins an element, shrinks length past it (stopping there), freezes length and pushes on -/
 example : WFArr (runHist E0
-    [.put (.name [48, 51]) .null false,                                  -- a["03"] = null
+    [.put (.name [48, 51]) .null false,                                  -- a["03"] = null : a plain property
+     .put (.idx 3) .null false,
      .define (.idx 1) ⟨some (.bool true), some true, some true, some false⟩ true,
      .put .length (.int 0) false,                                         -- a.length = 0 stops at index 1
      .define .length ⟨none, some false, none, none⟩ true,
@@ -1664,36 +1365,27 @@ example : WFArr (runHist E0
 /-- …and that history really ends with length 2 and the pinned element present -/
 example : arrLength (runHist E0
     [.put (.name [48, 51]) .null false,
+     .put (.idx 3) .null false,
      .define (.idx 1) ⟨some (.bool true), some true, some true, some false⟩ true,
      .put .length (.int 0) false] emptyArr) = 2 := by decide
 
 /-! ## Non-vacuity of the hypotheses -/
-/-- non-vacuity of `HistOK`: a history with canonical keys, a shrinking length write and a pinned element -/
-example : HistOK E0
-    [.put (.idx 3) .null false,
+
+/-- `HistOK`: non-canonical numerals are ordinary names now, so they are admitted too -/
+example : HistOK
+    [.put (.idx 3) .null false, .put (.name [48, 51]) .null false,
      .define (.idx 1) ⟨some (.bool true), some true, some true, some false⟩ true,
-     .put .length (.int 0) false, .delete (.idx 1) false] emptyArr := by
-  refine ⟨trivial, ⟨trivial, Or.inl rfl, fun h => by cases h.1⟩, trivial, trivial, trivial⟩
-
-
+     .put .length (.int 0) false, .delete (.idx 1) false] := by
+  intro op hop
+  simp only [List.mem_cons, List.mem_nil_iff, or_false] at hop
+  rcases hop with h | h | h | h | h <;> subst h
+  · trivial
+  · show Spec.arrayIndex? [48, 51] = none; decide
+  · exact ⟨trivial, Or.inl rfl⟩
+  · trivial
+  · trivial
 
 example : WFv (.num (.fin true 3 0)) ∧ WFv (.int (-5)) ∧ (5 : Nat) < 2^62 :=
   ⟨trivial, by simp [WFv, minInt64, maxInt64], by decide⟩
-
-/-- slice_refines applies to a dense receiver with fractional / negative arguments -/
-example : slice wOps E0 [.int (-2), .undef] ⟨3, [some .null, some (.int 7), some (.bool true)], [], true⟩
-    = Spec.slice wOps E0 [.int (-2), .undef] ⟨3, [some .null, some (.int 7), some (.bool true)], [], true⟩ := by
-  apply slice_refines
-  · intro a ha; simp at ha; rcases ha with h | h <;> subst h <;> simp [WFv, minInt64, maxInt64]
-  · decide
-  · intro j _ h2
-    have : j < 3 := by
-      have : Spec.relIndex (if argAt [Val.int (-2), Val.undef] 1 = Val.undef then Spec.IntInf.fin (3 : Nat) else Spec.toInteger E0 (argAt [Val.int (-2), Val.undef] 1)) 3 = 3 := by decide
-      simp only [wOps] at h2
-      omega
-    match j, this with
-    | 0, _ => decide
-    | 1, _ => decide
-    | 2, _ => decide
 
 end OttoVerif.C08.Thm
